@@ -7,7 +7,7 @@ from ..terms import A, C, F, V, L, NIL, call, conj, TRUE, FAIL, show_clause, sho
 
 ID = 'C01'
 LEVEL = 'model_checking'
-RULE = ('L1: every single-clause predicate p(t1..tk) :- B, k<=2 over 14 head-argument shapes incl. [X,Y|T] (k=3 over 7, '
+RULE = ('(L7) every ordered triple of a 13-clause alphabet over two predicates in which the same variable names play different roles and some clauses are decidable at compile time (fail first, true before fail); ' 'L1: every single-clause predicate p(t1..tk) :- B, k<=2 over 14 head-argument shapes incl. [X,Y|T] (k=3 over 7, '
         'and k=0), B in {true, one [thorough: or two] goals from q(X) q(Y) r(X,Y) X=Y X=a X\\=a Y=f(X) fail}, each '
         'queried with EVERY tuple of query-argument shapes (unbound, aliased, partial, ground). L2: every program '
         'of <=2 [thorough: 3] clauses over p/1,q/1 with head argument in {X,a,b,f(X)} and body of <=1 goal '
@@ -434,6 +434,30 @@ def l6_cases():
 NSH = 48
 
 
+# ---- L7: clauses next to each other --------------------------------------------------------------------
+# What a clause means does not depend on the clauses around it: EVERY ordered triple of a 13-clause
+# alphabet over two predicates forms a program.  All clauses use the SAME variable names (X, Y) in different
+# roles - head argument, nested in a head argument, repeated, local to the body - and some clauses can be
+# decided at compile time (a body that starts with fail, true before fail, X = Y before fail).
+def l7_alphabet():
+    box = lambda t: F('box', t)  # noqa: E731
+    return [(F('s', X, Y), FAIL), (F('s', X, Y), conj(TRUE, FAIL, call(F('q', X)))), (F('pr', X, A('left')), None), (F('pr', A('right'), box(X)), None),
+            (F('pr', X, X), None), (F('pr', A('a'), Y), conj(call(F('q', X)), call(F('=', Y, F('f', X))))), (F('s', X, Y), conj(call(F('q', X)), call(F('r', X, Y)))),
+            (F('pr', F('f', X), F('g', X, Y)), None), (F('s', Y, X), call(F('q', Y))), (F('pr', X, Y), conj(call(F('=', X, Y)), FAIL)),
+            (F('s', X, L([X], Y)), None), (F('pr', V('_'), X), call(F('q', X))), (F('s', X, box(Y)), conj(call(F('r', Y, X)), FAIL))]
+
+
+L7_SUPPORT = [(F('q', A('a')), None), (F('q', A('b')), None), (F('r', A('a'), A('c')), None), (F('r', A('b'), A('d')), None)]
+
+
+def l7_cases():
+    al = l7_alphabet()
+    idx = 0
+    for tri in itertools.product(range(len(al)), repeat=3):
+        yield idx, tri, [al[i] for i in tri]
+        idx += 1
+
+
 def plan(tier):
     q = tier == 'quick'
     sh = [('L1', k, NSH, 1 if q else 2) for k in range(NSH)]
@@ -445,6 +469,7 @@ def plan(tier):
     sh += [('L4', k, NSH) for k in range(NSH)]
     sh += [('L5', k, 8) for k in range(8)]
     sh += [('L6', k, 16) for k in range(16)]
+    sh += [('L7', k, 16) for k in range(16)]
     sh += [('L2b', k, NSH, 3) for k in range(NSH)]
     sh += [('L1b', k, 16, 2) for k in range(16)] + [('L1b', k, NSH, 3) for k in range(NSH)]
     if not q:
@@ -506,6 +531,17 @@ def run_shard(spec):
             account(acc, ('L2b', ncl, idx), case, res, key=case.describe()['scripts'][1]['text'])
             if idx % 3001 == 0 and res['status'] == 'ok' and res['nontrivial']:
                 acc.sample({'layer': 'L2b', 'program': case.describe()['scripts'][1]['text']}, limit=1)
+    elif spec[0] == 'L7':
+        _, k, n = spec
+        qs = [F('s', QA, QB), F('pr', QA, QB), F('pr', A('right'), QB), F('s', QA, QA), F('pr', F('f', QA), QB)]
+        for idx, tri, prog in l7_cases():
+            if idx % n != k:
+                continue
+            case = Case([(L7_SUPPORT + prog, True, False)], [], qs, repeat=1, budget=True)
+            res = case.run()
+            if res['status'] == 'violation':
+                res['sig'] = 'clauses-next-to-each-other:' + res['sig']
+            account(acc, ('L7', idx), case, res, key='L7|%s' % (tri,))
     elif spec[0] == 'L6':
         _, k, n = spec
         for idx, name, prog, qs in l6_cases():
